@@ -13,7 +13,7 @@ from . import core, tgram, tinfer, vals
 from .oracle import (NoneType, args, canon, conforms, inhabitants, is_anon_td, origin, show, td_fields)
 
 LEVEL = "exploration"
-RULE = ("types from (i) exhaustive enumeration of atoms, level-1 generics, all unions of 2..3 of those 50 members, "
+RULE = ("types from (i) exhaustive enumeration of atoms, level-1 generics, all unions of 2..3 of those 42 members (15,947 types), "
         "selected 6..7-member unions and wrappers of the 2-member unions, (ii) a recursive Hypothesis grammar "
         "(depth<=3, unions of 2..8, TypedDicts) plus focused unions (same-element tuples, classes, dicts), "
         "(iii) types inferred from shape-profiled grammar values; each x every shipped rewriter, the default chain and "
@@ -248,6 +248,7 @@ def run(ctx):
     core.run_sharded(ctx, __name__, "shard", 8 if ctx.tier == "quick" else 16)
     if ctx.tier == "thorough":
         ctx.extra["exhaustive"] = bool(ctx.extra.get("enumeration_complete"))
+        core.run_fuzz(ctx, 60000)
 
 
 def replay(ctx, case):
